@@ -74,7 +74,9 @@ where
     {
         let m = pattern.len();
         self.D[0].clear();
-        self.D[0].extend(repeat(k + 1).take(m + 1));
+        // cells beyond the active band hold a value larger than every admissible distance; they are
+        // only read while k < m, so saturating for huge thresholds does not change any result
+        self.D[0].extend(repeat(k.saturating_add(1)).take(m + 1));
         self.D[1].clear();
         self.D[1].extend(0..=m);
         Matches {
